@@ -95,7 +95,7 @@ def run(tier):
     # two-channel records, one segment per evaluation, many evaluations on the same analyzer (every order on the NumPy and Numba paths)
     for k in range(4 if tier == "quick" else 16):
         specs.append(dict(seed=rnd.randrange(2 ** 31), pslls=[60, 120, 200] if k % 2 else [200, 100, 40], Ls=[512, 1000] if k % 2 else [4096, 333], deltas=deltas,
-                          backend=["numpy", "numba"][(k // 2) % 2], winparam="str", mode="csd", order=[0, -1, 1, 2][k % 4]))
+                          backend=["numpy", "numba"][(k // 2) % 2], winparam="str", mode="csd", order=-1))       # (any detrending subtracts a constant or ramp from the sinusoid, whose own spectrum is not the window's side lobe)
     trs = common.pmap(record_kaiser, specs, chunksize=1)
     vd, tres = traces.validate("KaiserTrace", f"{PID}_trace", trs, constants=dict(Pslls=Raw("{40}"), KLs=Raw("{64}")), spec="TSpec")
     V.model(tres, "KaiserTrace.tla (captured Kaiser calls + measured leakage)")
